@@ -290,7 +290,8 @@ class SpatialNetwork(Network):
         # iterations = int(iterations)
 
         #  Get edge list
-        edges = to_cy(np.array(self.graph.get_edgelist()), NODE)
+        edges = np.array(self.graph.get_edgelist(),
+                         dtype=NODE).reshape(-1, 2)
 
         _randomly_rewire_geomodel_I(iterations, eps, A, D, E, edges)
 
@@ -341,7 +342,8 @@ class SpatialNetwork(Network):
         eps = float(inaccuracy)
 
         #  Get edge list
-        edges = to_cy(np.array(self.graph.get_edgelist()), NODE)
+        edges = np.array(self.graph.get_edgelist(),
+                         dtype=NODE).reshape(-1, 2)
 
         _randomly_rewire_geomodel_II(iterations, eps, A, D, E, edges)
 
@@ -396,7 +398,8 @@ class SpatialNetwork(Network):
         eps = float(inaccuracy)
 
         #  Get edge list
-        edges = to_cy(np.array(self.graph.get_edgelist()), NODE)
+        edges = np.array(self.graph.get_edgelist(),
+                         dtype=NODE).reshape(-1, 2)
 
         _randomly_rewire_geomodel_III(iterations, eps, A, D, E, edges, degree)
 
